@@ -325,6 +325,22 @@ pub mod tn {
             ensures b1(r).len() == v1(self).len(), forall |i: int| 0 <= i < v1(self).len() ==> #[trigger] b1(r)[i] == xr_ge(v1(self)[i], e.xr())
         { unimplemented!() }
         #[verifier::external_body]
+        pub fn greater_elem<E: ElemLike>(self, e: E) -> (r: Tensor<B, D, Bool>)
+            ensures b1(r).len() == v1(self).len(), forall |i: int| 0 <= i < v1(self).len() ==> #[trigger] b1(r)[i] == xr_gt(v1(self)[i], e.xr())
+        { unimplemented!() }
+        #[verifier::external_body]
+        pub fn lower_elem<E: ElemLike>(self, e: E) -> (r: Tensor<B, D, Bool>)
+            ensures b1(r).len() == v1(self).len(), forall |i: int| 0 <= i < v1(self).len() ==> #[trigger] b1(r)[i] == xr_lt(v1(self)[i], e.xr())
+        { unimplemented!() }
+        #[verifier::external_body]
+        pub fn lower_equal_elem<E: ElemLike>(self, e: E) -> (r: Tensor<B, D, Bool>)
+            ensures b1(r).len() == v1(self).len(), forall |i: int| 0 <= i < v1(self).len() ==> #[trigger] b1(r)[i] == xr_le(v1(self)[i], e.xr())
+        { unimplemented!() }
+        #[verifier::external_body]
+        pub fn not_equal_elem<E: ElemLike>(self, e: E) -> (r: Tensor<B, D, Bool>)
+            ensures b1(r).len() == v1(self).len(), forall |i: int| 0 <= i < v1(self).len() ==> #[trigger] b1(r)[i] == !xr_eq(v1(self)[i], e.xr())
+        { unimplemented!() }
+        #[verifier::external_body]
         pub fn equal_elem<E: ElemLike>(self, e: E) -> (r: Tensor<B, D, Bool>)
             ensures b1(r).len() == v1(self).len(), forall |i: int| #![trigger b1(r)[i]] #![trigger v1(self)[i]] 0 <= i < v1(self).len() ==> b1(r)[i] == xr_eq(v1(self)[i], e.xr())
         { unimplemented!() }
